@@ -2,6 +2,7 @@
    for every candidate stream and every verdict stream of the removing filters that follow LevelLimit in the chain. *)
 From Coq Require Import List Bool Arith ZArith.
 From HV Require Import Ord ListX Sprout SproutFacts Tree TreeLemmas TreeInv TreeRun.
+From HV Require Import DriverPrim Driver DriverFacts GenDriver GenEquivDriver DriverCode.
 Import ListNotations.
 
 Theorem C08_level_limit_always c n0 s L : 1 <= height c -> reach c n0 s -> level_lim c = Some L ->
@@ -37,3 +38,12 @@ Example C08_example :
   level_limit true 2 (fun _ => 0) (fun _ => 1) [(0, [5; 3; 9]%Z)] = [(0, [9]%Z)] /\
   exists s, ex_final = Some s /\ length (demes s) = 3.
 Proof. vm_compute. repeat split. eexists. split; reflexivity. Qed.
+
+(* ---------------------------------------------------------------- the same for the TRANSLATED code.
+   Gen/GenDriver.v is regenerated from /repo's current pyhms/tree.py (run, run_step, run_metaepoch, run_sprout, _do_sprout, active_demes,
+   active_non_leaves) and the run_metaepoch methods of EADeme, DEDeme, SHADEDeme, CMADeme, LocalDeme, LHSDeme, SobolDeme on every check;
+   `code_moment c fuel n evs s`: s is a state the translated run() passes through on the event stream evs. *)
+Theorem C08_translated_code_level_limit c fuel n evs s L : 1 <= height c -> code_moment c fuel n evs s -> level_lim c = Some L ->
+  forall lv, 1 <= lv -> active_at (demes s) lv <= L.
+Proof. exact (code_moment_level_limit c fuel n evs s L). Qed.
+Print Assumptions C08_translated_code_level_limit.
